@@ -26,6 +26,12 @@
 #include <kernel/lafem/sparse_matrix_bcsr.hpp>
 #include <kernel/space/lagrange1/element.hpp>
 #include <kernel/trafo/standard/mapping.hpp>
+#ifdef C17_ISOPARAM
+#include <kernel/trafo/isoparam/mapping.hpp>
+#include <kernel/geometry/atlas/surface_mesh.hpp>
+#include <kernel/geometry/boundary_factory.hpp>
+#include <kernel/geometry/mesh_part.hpp>
+#endif
 
 #include <deque>
 #include <map>
@@ -259,7 +265,13 @@ namespace
   template<typename Mesh_>
   struct Runner
   {
+#ifdef C17_ISOPARAM
+    // isoparametric trafo of degree 2 whose boundary facets are linked to a SurfaceMesh chart: every task's trafo
+    // evaluator projects the boundary nodes of its cell onto the chart in prepare() - chart state is shared by all tasks
+    typedef Trafo::Isoparam::Mapping<Mesh_, 2> TrafoType;
+#else
     typedef Trafo::Standard::Mapping<Mesh_> TrafoType;
+#endif
     typedef Space::Lagrange1::Element<TrafoType> SpaceType;
     typedef LAFEM::DenseVector<double, Index> VectorType;
     typedef LAFEM::SparseMatrixCSR<double, Index> MatrixType;
@@ -407,6 +419,29 @@ namespace
     void body()
     {
       TrafoType trafo(mesh);
+#ifdef C17_ISOPARAM
+      // the surface of the unit cube as a triangulated SurfaceMesh chart (8 vertices, 12 triangles), linked to the boundary
+      std::unique_ptr<Geometry::Atlas::ChartBase<Mesh_>> chart_holder;
+      std::unique_ptr<Geometry::MeshPart<Mesh_>> bnd_holder;
+      if constexpr(Mesh_::shape_dim == 3)
+      {
+        typedef Geometry::Atlas::SurfaceMesh<Mesh_> SurfChart;
+        typedef typename SurfChart::SurfaceMeshType SurfMesh;
+        Index ne[3] = {8, 0, 12};
+        std::unique_ptr<SurfMesh> sm(new SurfMesh(ne));
+        auto& vx = sm->get_vertex_set();
+        for(Index i = 0; i < 8; ++i) { vx[i][0] = double(i & 1u); vx[i][1] = double((i >> 1) & 1u); vx[i][2] = double((i >> 2) & 1u); }
+        static const Index tri[12][3] = {{0,3,1},{0,2,3},{4,5,7},{4,7,6},{0,1,5},{0,5,4},{2,7,3},{2,6,7},{0,4,6},{0,6,2},{1,3,7},{1,7,5}};
+        auto& ix = sm->template get_index_set<2, 0>();
+        for(Index t = 0; t < 12; ++t) for(int k = 0; k < 3; ++k) ix(t, k) = tri[t][k];
+        sm->deduct_topology_from_top();
+        chart_holder.reset(new SurfChart(std::move(sm)));
+        Geometry::BoundaryFactory<Mesh_> bnd_factory(mesh);
+        bnd_holder.reset(new Geometry::MeshPart<Mesh_>(bnd_factory));
+        trafo.add_meshpart_chart(*bnd_holder, *chart_holder);
+        sim::probe("isoparametric_trafo_with_surface_chart");
+      }
+#endif
       SpaceType space(trafo);
       DA<TrafoType> da(trafo);
       // history: the same assembler object is cleared and compiled again for another cell subset, strategy and worker count
@@ -773,7 +808,11 @@ namespace
   }
 }
 
+#ifdef C17_ISOPARAM
+HarnessInfo harness_info() { return {"C17", "c17_iso", 3000000}; }
+#else
 HarnessInfo harness_info() { return {"C17", "c17_asm", 3000000}; }
+#endif
 void harness_process_init(int argc, char** argv) { Runtime::initialize(argc, argv); }
 
 std::string harness_run()
@@ -781,7 +820,11 @@ std::string harness_run()
   sim::pthread_model_reset();
   sim::clock_reset();
   sim::fault_setup("SPURIOUS_WAKEUP", {10, 50, 200});
+#ifdef C17_ISOPARAM
+  int mk = int(sim::cfg_weighted("mesh", {0, 0, 1}));   // hexahedra only: the SurfaceMesh chart is the surface of the unit cube
+#else
   int mk = int(sim::cfg_weighted("mesh", {5, 3, 2}));
+#endif
   int level;
   const bool big = sim::thorough();
   if(mk == 0) level = int(sim::cfg_weighted("level", {1, 2, 4, 4, 1, big ? 1 : 0}));      // quads: 1,4,16,64,256(,1024) cells
@@ -790,9 +833,12 @@ std::string harness_run()
   int perm = int(sim::cfg_weighted("perm", {5, 1, 2, 1, 1}));
   g_vd = Verdict();
   sim::spawn("master", [=]() {
+#ifndef C17_ISOPARAM
     if(mk == 0) run_with_mesh<Geometry::ConformalMesh<Shape::Hypercube<2>>>(level, perm);
     else if(mk == 1) run_with_mesh<Geometry::ConformalMesh<Shape::Simplex<2>>>(level, perm);
-    else run_with_mesh<Geometry::ConformalMesh<Shape::Hypercube<3>>>(level, perm);
+    else
+#endif
+    run_with_mesh<Geometry::ConformalMesh<Shape::Hypercube<3>>>(level, perm);
   });
   sim::run_go();
   return "{\"scatters\":" + std::to_string(g_vd.scatters) + ",\"combines\":" + std::to_string(g_vd.combines) + ",\"hb_pairs_checked\":" + std::to_string(g_vd.pairs_checked) +
